@@ -73,6 +73,7 @@ var legalEdges = map[[2]chord.State]bool{
 	{chord.Active, chord.Leaving}:      true,
 	{chord.Leaving, chord.Active}:      true, // leave attempt reverted
 	{chord.Leaving, chord.Left}:        true,
+	{chord.Active, chord.Left}:         true, // the last node of a ring leaves without taking locks
 }
 
 func runHist(c histCase, rep *batch.Report) batch.CaseResult {
